@@ -58,7 +58,9 @@ VARNAMES = ["v1", "v2", "cflags", "builder", "subninjas", "subninjx", "pool1", "
 RULEPARAMS = ["command", "description", "depfile", "deps", "generator", "restat", "rspfile", "rspfile_content", "pool"]
 
 _litword = st.sampled_from([b"a", b"-O2", b"foo.c", b"x y", b"q'uote", b"\"dq\"", b"\xc3\xa9", b"\xff", b"a=b", b"#h",
-                            b"(p)", b"k;l", b"-I.", b"~t", b"a:b", b"dir/f", b"*", b""])
+                            b"(p)", b"k;l", b"-I.", b"~t", b"a:b", b"dir/f", b"*", b"",
+                            # bytes next to the letters in ASCII: none of them continues a '$name' reference
+                            b"[i]", b"]", b"^x", b"`c`", b"\\n", b"@", b"{b}"])
 
 
 @st.composite
@@ -292,10 +294,14 @@ def manifest_case(draw):
         for s_ in ff["stmts"]:
             if draw(st.integers(0, 3)) == 0:
                 s_["tail"] = draw(st.sampled_from(["icomment", "iblank", "comment", "blank"]))
+            if s_["k"] in ("rule", "build", "pool") and draw(st.integers(0, 5)) == 0:
+                # a comment line at column 0 (or indented) INSIDE the block, before the n-th binding: Ninja drops
+                # comment lines altogether, the block goes on
+                s_["inner"] = [draw(st.integers(0, 3)), draw(st.sampled_from([b"# in the block", b"   # in the block"])).hex()]
             if s_["k"] in ("include", "subninja"):
                 decorate(s_["file"])
     decorate(f)
-    return {"kind": "manifest", "file": f}
+    return {"kind": "manifest", "file": f, "crlf": draw(st.integers(0, 7)) == 0}
 
 
 @st.composite
@@ -341,6 +347,12 @@ def render_file(f, files):
         elif k in ("include", "subninja"):
             render_file(s["file"], files)
             L.append(k.encode() + b" " + s["file"]["name"].encode())
+        inner = s.get("inner")
+        if inner and k in ("rule", "build", "pool"):
+            # the block's lines are the last ones appended: header + bindings
+            nb = {"rule": len(s.get("params", {})), "build": len(s.get("binds", [])), "pool": 1}[k]
+            pos = len(L) - nb + min(inner[0], nb)
+            L.insert(pos, bytes.fromhex(inner[1]))
         tail = s.get("tail")
         if tail:
             L.append({"icomment": b"  # note", "iblank": b"   ", "comment": b"# note", "blank": b""}[tail])
@@ -495,13 +507,16 @@ def run_case(case, ctx, verbose=False):
     try:
         files = {}
         render_file(case["file"], files)
+        if case.get("crlf"):
+            # the same manifest with CRLF line endings (also inside '$'-newline continuations)
+            files = {n: d.replace(b"\n", b"\r\n") for n, d in files.items()}
         for name, data in files.items():
             with open(os.path.join(wd, name), "wb") as f:
                 f.write(data)
         info = {}
         ref = []
         reference(case["file"], Scope(), ref, info)
-        cls = ["manifest"]
+        cls = ["manifest"] + (["crlf"] if case.get("crlf") else [])
         # duplicate outputs / phony cycles etc. are rejected by ninja: only accepted manifests are judged
         compdb, err = run_ninja(wd)
         if compdb is None:
